@@ -250,6 +250,9 @@ class FT2(TD.FunctionTranslator):
                 if tb == STRLIST and ta in (STR, CHAR):
                     return neg("mem_str %s %s" % (_paren(self.coerce(e, a, ta, STR, H)), _paren(b))), BOOL
                 self.fail(e, "membership of a %s in a %s" % (tname(ta), tname(tb)))
+            if op in (ast.Eq, ast.NotEq) and self.int_const(e.left) is not None and self.int_const(r) is None:
+                # `-1 != x` is read as `x != -1` (== and != of ints are symmetric): one spelling, one generated term
+                return self.expr(ast.copy_location(ast.Compare(left=r, ops=e.ops, comparators=[e.left]), e), env, H)
             if op in (ast.Eq, ast.NotEq):
                 # one character against a string constant
                 for x, y in ((e.left, r), (r, e.left)):
